@@ -344,6 +344,8 @@ func (e *esdtNFTTransfer) addNFTToDestination(
 		}
 	}
 	esdtDataToTransfer.Value.Add(esdtDataToTransfer.Value, currentESDTData.Value)
+	// the properties (frozen flag) belong to the holder, they do not travel with the tokens
+	esdtDataToTransfer.Properties = currentESDTData.Properties
 
 	_, err = saveESDTNFTToken(userAccount, esdtTokenKey, esdtDataToTransfer, e.marshalizer, e.pauseHandler, isReturnWithError)
 	if err != nil {
